@@ -80,6 +80,8 @@ def canon(x):
 def outcome(thunk):
     try:
         return ("ok", canon(thunk()))
+    except Violation:
+        raise
     except Exception as e:
         return ("exc", type(e).__name__)
 
@@ -352,8 +354,14 @@ def b_paths(a):
     T, pi = rev_tprob(a)
     s, k = src_snk(a)
     nf = np.asarray(ttpt.net_fluxes(T, s, k, populations=pi))
-    if a["renumber"]:
-        return (lambda: tpath.paths(s, k, nf, remove_path="subtract", num_paths=a["steps"])), [nf]
+    scheme = "subtract" if a["renumber"] else "bottleneck"
+    return (lambda: tpath.paths(s, k, nf, remove_path=scheme, num_paths=a["steps"] + 1, flux_cutoff=0.999)), [nf]
+
+
+def b_top_path(a):
+    T, pi = rev_tprob(a)
+    s, k = src_snk(a)
+    nf = np.asarray(ttpt.net_fluxes(T, s, k, populations=pi))
     return (lambda: tpath.top_path(s, k, nf)), [nf]
 
 
@@ -410,6 +418,30 @@ def b_dist(name):
             X = X.astype("float64")
         y = X[a["k"] % len(X)].copy()
         return (lambda: getattr(libdist, name)(X, y)), [X, y]
+    return b
+
+
+def b_dist_out(name):
+    def b(a):
+        X = points(a)
+        if name == "hamming":
+            X = (np.abs(X) * 2).astype("int32")
+        else:
+            X = X.astype("float64")
+        y = X[a["k"] % len(X)].copy()
+
+        def f():
+            # the previous content of a caller-supplied output buffer is "what the process computed before"
+            outs = []
+            for junk in (0.0, 7.5, float("nan"), -1e300):
+                buf = np.full(len(X), junk)
+                r = getattr(libdist, name)(X, y, out=buf)
+                outs.append(np.array(r, copy=True))
+            for o in outs[1:]:
+                if o.tobytes() != outs[0].tobytes():
+                    raise Violation("libdist.%s result depends on the previous content of the out buffer" % name)
+            return outs[0]
+        return f, [X, y]
     return b
 
 
@@ -617,6 +649,7 @@ ROUTINES = {
     "net_fluxes": (counts_args(), b_flux("net_fluxes")),
     "reactive_populations": (counts_args(), b_flux("reactive_populations")),
     "paths": (counts_args(), b_paths),
+    "top_path": (counts_args(), b_top_path),
     "assign_to_nearest_center": (points_args(), b_assign),
     "find_cluster_centers": (points_args(), b_find_centers),
     "kcenters": (points_args(), b_kcenters),
@@ -625,6 +658,9 @@ ROUTINES = {
     "libdist.euclidean": (points_args(), b_dist("euclidean")),
     "libdist.manhattan": (points_args(), b_dist("manhattan")),
     "libdist.hamming": (points_args(), b_dist("hamming")),
+    "libdist.euclidean_out": (points_args(), b_dist_out("euclidean")),
+    "libdist.manhattan_out": (points_args(), b_dist_out("manhattan")),
+    "libdist.hamming_out": (points_args(), b_dist_out("hamming")),
     "ragged_operator": (ragged_args(), b_ragged),
     "mi_to_nmi": (feat_args(), b_nmi),
     "mi_to_nmi_apc": (feat_args(), b_nmi_apc_full),
@@ -733,6 +769,35 @@ def run_case(case):
     return Info(nt, cl)
 
 
+def strap_stat(block):
+    """picklable statistic used by the bootstrap clause (histogram of the resampled rows)."""
+    return np.bincount(np.asarray(block).ravel() % 7, minlength=7).tolist() + [int(np.asarray(block)[0].sum())]
+
+
+@st.composite
+def worker_case(draw):
+    return {"rows": draw(st.integers(4, 30)), "cols": draw(st.integers(1, 4)), "seed": draw(st.integers(0, 2 ** 31 - 1)),
+            "gseed": draw(st.integers(0, 2 ** 31 - 1)), "n_trials": draw(st.integers(2, 9)),
+            "procs": draw(st.sampled_from([[1, 2], [1, 3], [2, 4], [1, 2, 5]]))}
+
+
+def run_workers(case):
+    """The number of worker processes must not change a bootstrap (same global seed -> same resamples -> same values)."""
+    from enspara.msm import bootstrap as bs
+    data = rs(case["seed"]).randint(0, 50, size=(case["rows"], case["cols"])).astype(np.int32)
+    before = data.copy()
+    results = []
+    for p in case["procs"]:
+        np.random.seed(case["gseed"])          # the routine draws from the global generator; pinned per call
+        results.append(canon(bs.bootstrap(strap_stat, data, case["n_trials"], n_procs=p)))
+    require(all(r == results[0] for r in results[1:]),
+            "bootstrap result depends on the number of worker processes", procs=case["procs"],
+            first=str(results[0])[:200], other=str(next(r for r in results if r != results[0]) if any(r != results[0] for r in results) else "")[:200])
+    require(np.array_equal(data, before), "bootstrap modified the data array passed to it")
+    distinct = len(set(str(x) for x in results[0][1])) if isinstance(results[0], tuple) else 0
+    return Info(len(case["procs"]) >= 2 and case["n_trials"] >= 3, ["workers=%s" % case["procs"]])
+
+
 def run_denominator(case):
     """AST accounting clause: the list of masked call sites must be fully reachable by the registry (reported)."""
     root = os.path.dirname(enspara.__file__)
@@ -748,8 +813,9 @@ MASKED = ["shannon_entropy", "mutual_information", "mi_matrix", "weighted_mi", "
 
 CLAUSES = [
     Clause("masked_sites", routine_case(MASKED), run_case, quick=240, thorough=4000),
-    Clause("all_routines", routine_case(sorted(r for r in ROUTINES if r not in LONG)), run_case, quick=500, thorough=12000),
+    Clause("all_routines", routine_case(sorted(r for r in ROUTINES if r not in LONG)), run_case, quick=1200, thorough=16000),
     Clause("threads_long_inputs", routine_case(LONG), run_case, quick=24, thorough=400),
+    Clause("worker_processes", worker_case(), run_workers, quick=12, thorough=120),
     Clause("ast_denominator", st.just({"ast": True}), run_denominator, quick=4, thorough=16),
 ]
 MATCHERS = {}
